@@ -189,7 +189,7 @@ def run_unit(k, repo, root, build_root, tier):
                    or "verification failed", "gen_line": None, "text": h, "source": k.get("source_hint"),
                    "labels": [], "id": "%s/%s/kani-check" % (name, short)}
             # concrete playback re-runs the harness: do it for the first failures only
-            cex = counterexample(k, target_dir, cwd, h) if len(res["failures"]) < 2 else None
+            cex = counterexample(k, target_dir, cwd, h) if (len(res["failures"]) < 2 and not k.get("no_cex")) else None
             if cex:
                 rec["counterexample"] = cex
             res["failures"].append(rec)
